@@ -38,6 +38,6 @@ Print Assumptions C05_lognorm_ex_mean. Print Assumptions C05_lognorm_ex_variance
 (* a time-unit-wrapped parameter scales the variates by exactly the unit conversion factor *)
 Theorem C05_duration_variates_scaled : forall v f, dur_values_gen v f = Ok (v * f)%Q.
 Proof. exact dur_scaling. Qed.
-Theorem C05_rate_variates_scaled : forall v f, rate_values_gen v f = Ok (v / f)%Q.
+Theorem C05_rate_variates_scaled : forall v f, ~ (f == 0)%Q -> rate_values_gen v f = Ok (v / f)%Q.
 Proof. exact rate_scaling. Qed.
 Print Assumptions C05_duration_variates_scaled. Print Assumptions C05_rate_variates_scaled.
